@@ -450,7 +450,16 @@ func (c *conn) WriteTo(w io.Writer) (n int64, err error) {
 }
 
 func (c *conn) Flush() error {
-	return c.loop.write(c)
+	if err := c.loop.write(c); err != nil {
+		return err
+	}
+	// In LT mode the writable event is only monitored on demand, make sure it is
+	// if there is still pending data after flushing, otherwise the data that was
+	// put into the outbound buffer directly by ReadFrom would never be sent.
+	if !c.loop.engine.opts.EdgeTriggeredIO && c.opened && !c.outboundBuffer.IsEmpty() {
+		return c.loop.poller.ModReadWrite(&c.pollAttachment, false)
+	}
+	return nil
 }
 
 func (c *conn) InboundBuffered() int {
